@@ -23,6 +23,7 @@ import (
 	"time"
 
 	"github.com/pkg/errors"
+	kerrors "k8s.io/apimachinery/pkg/api/errors"
 	metav1 "k8s.io/apimachinery/pkg/apis/meta/v1"
 	"k8s.io/apimachinery/pkg/labels"
 	"k8s.io/client-go/tools/cache"
@@ -185,6 +186,12 @@ func (w *CronWorker) refreshUpdatedJobConfigs(now time.Time) {
 					"namespace", jobConfig.Namespace,
 					"name", jobConfig.Name,
 				)
+				continue
+			}
+
+			// A deleted JobConfig must stay out of the heap: do not compute a next schedule
+			// time for an object that is no longer in the cache.
+			if _, err := w.jobconfigInformer.Lister().JobConfigs(jobConfig.Namespace).Get(jobConfig.Name); kerrors.IsNotFound(err) {
 				continue
 			}
 			if _, err := w.schedule.Bump(jobConfig, now); err != nil {
